@@ -482,10 +482,10 @@ pub fn property() -> Property {
                must-reject variants; distinct by encoding.",
         assumptions: &["the raw splitter is checked to re-join every library encoding identically before it is used"],
         subs: vec![
-            Sub { name: "roundtrip", kind: Kind::Tape { max_len: 6000, quick: 8_000, thorough: 250_000, f: roundtrip } },
-            Sub { name: "byte_variants", kind: Kind::Tape { max_len: 6000, quick: 30_000, thorough: 800_000, f: byte_variants } },
+            Sub { name: "roundtrip", kind: Kind::Tape { max_len: 6000, quick: 64_000, thorough: 1_000_000, f: roundtrip } },
+            Sub { name: "byte_variants", kind: Kind::Tape { max_len: 6000, quick: 240_000, thorough: 3_200_000, f: byte_variants } },
             Sub { name: "vectors", kind: Kind::Index { count: |t| t.pick(30, 600), exhaustive: false, f: vectors } },
-            Sub { name: "raw_bytes", kind: Kind::Tape { max_len: 400, quick: 20_000, thorough: 400_000, f: raw_bytes } },
+            Sub { name: "raw_bytes", kind: Kind::Tape { max_len: 400, quick: 160_000, thorough: 1_600_000, f: raw_bytes } },
         ],
         known: vec![Known { key: KF_TAPTREE, what: "the tap-tree codec reverses the leaf order on every hop: encode(decode(b)) alternates between two byte strings", repro: repro_taptree }],
     }
